@@ -75,6 +75,18 @@ def matrix():
                     refuted.append({"family": name, "variant": v, "violated": r["violated"], "distinct_states": r.get("distinct")})
         res[alt] = {"switches": sw, "refuted_by": refuted}
         json.dump(res, open(os.path.join(lib.SPECS, "switch_matrix.json"), "w"), indent=1)
+    import cacheimpl
+    for alt, (sw, fams) in cacheimpl.ALTERNATIVES.items():
+        refuted = []
+        for name in fams:
+            r = cacheimpl.run_family(name, sw, timeout=3600)
+            runs = cacheimpl.to_runs(name, r["family"], r["histories"])
+            rej, _ = lib.validate_runs("Trace_CacheLin", runs, env={"PROP": "ALL"}, timeout=3600, max_reject=1)
+            print(alt, name, "rejected" if rej else "accepted", flush=True)
+            if rej:
+                refuted.append({"family": name, "variant": "CacheImpl", "violated": "history rejected by CacheLin", "distinct_states": r.get("distinct")})
+        res["CacheImpl:" + alt] = {"switches": sw, "refuted_by": refuted}
+        json.dump(res, open(os.path.join(lib.SPECS, "switch_matrix.json"), "w"), indent=1)
     missing = [a for a, v in res.items() if not v["refuted_by"]]
     print("switch matrix: %d alternatives, not discriminated: %s" % (len(res), missing))
     return 0
